@@ -87,6 +87,10 @@ DESC = {
               "a cross-kind collision where the earlier kind has at least two members declared in non-alphabetical order"),
     "C11-2": ("C11", "varlink_grammar.rs rule type_: the three `?` alternatives collapsed into one `? type_` (stacked nullables accepted) -- a GRAMMAR change, outside the claimed slice",
               "two or more adjacent `?` in a type expression (expected miss: the peg grammar is not under contract)"),
+    "C16-1": ("C16", "activation_listener: the LISTEN_PID guard inverted into an early return on mismatch with a catch-all `_ => {}`",
+              "LISTEN_FDS >= 1 set but LISTEN_PID absent: the server adopts fd 3 although LISTEN_PID does not name it"),
+    "C16-2": ("C16", "varlink_connect: `split(';').next()` replaced by `rsplit_once(';')` (only the LAST parameter is cut)",
+              "an address with two or more `;` parameters: client and server disagree on the socket name"),
     "C17-1": ("C17", "skip_serializing_if predicate replaced by `flag_is_default` (omit Some(false) like None) on Request/Reply flags",
               "a flag explicitly set to Some(false): round trip yields None; {\"oneway\":false} re-serialises without the member"),
 }
